@@ -207,6 +207,41 @@ def rule_c08_completion(ctx):
         F = ("OBJ", "flow")
         base = (("f", "inner"), ("f", "call"))
         rdp = base + (("v", "RecvBody"), ("f", "0"), ("f", "state"), ("f", "reader"))
+        # exactness: with a length-delimited or chunked body the flow may proceed exactly when the body is complete --
+        # whatever else is known about the response (status, redirect, ...)
+        for variant in ("LengthDelimited", "Chunked"):
+            def initx(st, variant=variant):
+                st.write_leaf(F, (), ("term", ("in", "flow")))
+                st.write_leaf(F, base + (("$v",),), ("variant", "RecvBody"))
+                st.write_leaf(F, rdp + (("$v",),), ("variant", "Some"))
+                st.write_leaf(F, rdp + (("v", "Some"), ("f", "0"), ("$v",)), ("variant", variant))
+                if variant == "LengthDelimited":
+                    st.write_leaf(F, rdp + (("v", "Some"), ("f", "0"), ("v", "LengthDelimited"), ("f", "0")), ("term", ("in", "left")))
+                    st.facts[("in", "left")] = ("iv", ((0, U64MAX),))
+            outsx = I.run(cp, [ref(F)], initx)
+            okx = bool(outsx)
+            why = []
+            for o in outsx:
+                if o.kind != "return":
+                    okx = False
+                    continue
+                l = tree_leaf(o.ret)
+                if variant == "LengthDelimited":
+                    iv = o.state.facts.get(("in", "left"))
+                    zero = bool(iv) and iv[1] == ((0, 0),)
+                    nonzero = bool(iv) and not any(lo <= 0 <= hi for lo, hi in iv[1])
+                    if l == ("term", ("eq", ("int", 0), ("term", ("in", "left")))):
+                        continue
+                    if not ((l == ("int", 1) and zero) or (l == ("int", 0) and nonzero)):
+                        okx = False
+                        why.append("returns %s with remaining length %s" % (shape(o.ret), iv[1] if iv else "?"))
+                else:
+                    dv = o.state.mem.get(F, {}).get(rdp + (("v", "Some"), ("f", "0"), ("v", "Chunked"), ("f", "0"), ("$v",)))
+                    if not dv or (l == ("int", 1)) != (dv == ("variant", "Ended")):
+                        okx = False
+                        why.append("returns %s in decoder state %s" % (shape(o.ret), dv))
+            ctx.check(okx, R, "can_proceed:" + variant, "with a %s body the flow may proceed exactly when the body is complete" % variant,
+                      loc=body_loc(cp), detail=why[:3])
         for variant, want in (("CloseDelimited", {"1"}), ("NoBody", {"1"})):
             def init(st, variant=variant):
                 st.write_leaf(F, (), ("term", ("in", "flow")))
@@ -377,9 +412,10 @@ def rule_c04_write(ctx):
             bad.append("consumed amount not bounded by the input length")
         if not I.decide_le(st, c, ("term", ("in", "left"))):
             bad.append("consumed amount not bounded by the remaining length")
-        avail_ok = "Writer::<\\'a>::available" in repr(c) or "available" in repr(c) or "satsub" in repr(c) or "Cursor" in repr(c)
-        if not avail_ok:
-            bad.append("consumed amount does not depend on the output space")
+        from .rules_c18 import room_terms
+        rooms = room_terms(st, extra=(c,))
+        if not rooms or not any(c == r or I.decide_le(st, c, r) for r in rooms):
+            bad.append("consumed amount is not limited by the output space")
         if not _is_dec(left_now, c):
             bad.append("remaining length is not decremented by exactly the consumed amount (%r)" % (left_now,))
         # finished <=> remaining == 0 after the decrement
